@@ -84,6 +84,11 @@ const ASSIGN_OPS: [BinOperator; 12] = [
 /// accepts it, then for every member choice of T and R the update neither panics nor leaves a non-T
 /// in the cell, and what it yields is a T
 fn typed_cell(op: BinOperator, t: Ty, r: Ty, pow_guard: bool) -> bool {
+    // arrays occur only in the array rows of the table
+    {
+        use crate::variable::verif_valgate::*;
+        allow_vals(if desc(t).k == 10 || desc(r).k == 10 { 1 << V_ARRAY } else { 0 });
+    }
     let cell_type = Type::Mut(Arc::new(real(t)));
     if !can_be_used(&cell_type, &real(r), op) {
         return false;
